@@ -84,7 +84,7 @@ def parse(run, meta):
             spans.append({'gen_line': ls, 'gen_line_end': le, 'primary': s.get('is_primary', False), 'label': s.get('label'), 'text': text, 'origin': o,
                           'file': s.get('file_name')})
         kind = 'verification'
-        if d.get('code') or 'not yet support' in msg or msg.startswith('cannot find') or 'mismatched types' in msg:
+        if d.get('code') or 'not yet support' in msg or 'is not supported' in msg or 'not supported' in msg or msg.startswith('cannot find') or 'mismatched types' in msg:
             kind = 'frontend'
         if 'rlimit' in msg or 'resource limit' in msg.lower() or 'timed out' in msg.lower():
             kind = 'rlimit'
